@@ -222,6 +222,11 @@ func (s *Server) handleRequests(ctx context.Context, sshConn gossh.Conn,
 			if err := req.Reply(false, nil); err != nil {
 				dlog.Server.Trace(user, fmt.Errorf("reply(false): %w", err))
 			}
+			// The connection is about to be closed, but requests the client has
+			// already queued still arrive. Keep consuming them, otherwise they
+			// block the connection's mux for good and the connection slot is
+			// never given back.
+			go gossh.DiscardRequests(in)
 			return fmt.Errorf("Closing SSH connection as unknown request received|%s|%v",
 				req.Type, payload.Value)
 		}
